@@ -1,5 +1,7 @@
 import RuxModel.Drv.Common
 import RuxModel.Drv.Lru
+import RuxModel.Drv.GoStr
+import RuxModel.Drv.Path
 /-
   Line-protocol driver: `driver <engine>` reads op lines on stdin and answers one line per op.
   Lines starting with `#` are echoed (they separate cases and carry comments).
@@ -21,6 +23,8 @@ partial def loop (e : Engine) (hin hout : IO.FS.Stream) (s : e.σ) : IO Unit := 
     loop e hin hout s'
 
 def engines : List (String × Engine) := [
+  ("gostr", goStrEngine),
+  ("path", pathEngine),
   ("lru", lruEngine)
 ]
 
